@@ -546,7 +546,7 @@ func (g *gen) expr(t *wty, d int) (string, bool) {
 				a, ca := g.expr(t, d-1)
 				b, cb := g.expr(t, d-1)
 				op := []string{"&&", "||", "==", "!=", "&", "|"}[g.n(0, 5)]
-				if g.inLoop > 0 && g.av["dxil-bool-shortcircuit-in-loop"] && len(op) == 2 && op[0] == op[1] && op != "==" {
+				if g.av["dxil-bool-shortcircuit"] && len(op) == 2 && op[0] == op[1] && op != "==" {
 					op = op[:1]
 				}
 				return fmt.Sprintf("(%s %s %s)", a, op, b), ca && cb
@@ -586,7 +586,7 @@ func (g *gen) expr(t *wty, d int) (string, bool) {
 				}
 				return fmt.Sprintf("%s(%s)", t, strings.Join(p, ", ")), all
 			case 3:
-				if g.av["dxil-not-vec-bool"] {
+				if g.av["dxil-vector-unary-ops"] {
 					return g.leaf(t)
 				}
 				a, ca := g.expr(t, d-1)
@@ -688,6 +688,9 @@ func (g *gen) numeric(t *wty, d int) (string, bool) {
 		a, _ := g.expr(t, d-1)
 		b, cb := g.expr(t, d-1)
 		op := []string{"/", "%"}[g.n(0, 1)]
+		if op == "%" && t.k == tVec && t.s == kU32 && g.av["dxil-uvec-rem"] {
+			op = "/"
+		}
 		if cb {
 			b = g.nonZeroLit(t)
 		} else if !isF {
@@ -703,6 +706,9 @@ func (g *gen) numeric(t *wty, d int) (string, bool) {
 		g.use("div")
 		return fmt.Sprintf("(%s %s %s)", a, op, b), false
 	case c < 8: // unary minus / bit not
+		if t.k == tVec && g.av["dxil-vector-unary-ops"] {
+			return g.leaf(t)
+		}
 		a, ca := g.expr(t, d-1)
 		if t.s == kU32 {
 			return fmt.Sprintf("(~%s)", a), ca
@@ -722,6 +728,9 @@ func (g *gen) numeric(t *wty, d int) (string, bool) {
 			a, ca := g.expr(t, d-1)
 			a = rt(a, ca, t)
 			f := []string{"abs", "floor", "ceil", "fract", "sin", "cos", "exp2", "sqrt", "trunc", "round", "sign", "saturate", "inverseSqrt", "log2", "tanh"}[g.n(0, 14)]
+			if f == "sign" && t.k == tVec && g.av["dxil-vector-unary-ops"] {
+				f = "abs"
+			}
 			g.use("math:" + f)
 			if f == "sqrt" || f == "inverseSqrt" || f == "log2" {
 				return fmt.Sprintf("%s(abs(%s) + 1.0)", f, a), false
@@ -828,7 +837,7 @@ func (g *gen) numeric(t *wty, d int) (string, bool) {
 				if isF && g.chance(50) { // matrix column
 					k := g.n(2, 4)
 					m, cm := g.expr(mat(k, t.n), d-1)
-					if g.chance(50) {
+					if g.chance(50) && !g.av["dxil-matrix-dynamic-column"] {
 						i, _ := g.expr(scalar(kU32), d-1)
 						m = rt(m, cm, mat(k, t.n))
 						g.use("matcol-dyn")
@@ -870,6 +879,9 @@ func (g *gen) numeric(t *wty, d int) (string, bool) {
 			a, ca := g.expr(t, d-1)
 			a = rt(a, ca, t)
 			f := []string{"countOneBits", "reverseBits", "abs", "firstLeadingBit", "firstTrailingBit", "countLeadingZeros"}[g.n(0, 5)]
+			if f == "countLeadingZeros" && t.k == tVec && g.av["dxil-vector-unary-ops"] {
+				f = "countOneBits"
+			}
 			g.use("bits:" + f)
 			return fmt.Sprintf("%s(%s)", f, a), false
 		}
@@ -1006,7 +1018,7 @@ func (g *gen) stmt(level int, w *strings.Builder) {
 		fmt.Fprintf(w, "%slet %s: %s = %s;\n", in, name, t, e)
 		g.declare(scopeVar{name: name, ty: t})
 	case c < 36: // var
-		t := g.valueType(true, !g.av["dxil-local-matrix-var"])
+		t := g.valueType(!g.av["dxil-bool-var"], !g.av["dxil-local-matrix-var"])
 		name := g.fresh("v")
 		if g.chance(15) && !g.avoidFatal {
 			fmt.Fprintf(w, "%svar %s: %s;\n", in, name, t)
@@ -1060,7 +1072,7 @@ func (g *gen) stmt(level int, w *strings.Builder) {
 		p := ws[g.n(0, len(ws)-1)]
 		e, _ := g.expr(p.ty, d)
 		target := p.expr(g)
-		if p.ty.k == tVec && g.chance(20) {
+		if p.ty.k == tVec && g.chance(20) && !(p.res >= 0 && g.av["dxil-buffer-access-chain"]) && !g.av["dxil-place-component-store"] {
 			ce, _ := g.expr(scalar(p.ty.s), d-1)
 			fmt.Fprintf(w, "%s%s.%c = %s;\n", in, target, swz[g.n(0, p.ty.n-1)], ce)
 			g.use("buffer-component-store")
@@ -1124,7 +1136,7 @@ func (g *gen) stmt(level int, w *strings.Builder) {
 		fmt.Fprintf(w, "%s}\n", in)
 		g.use("switch")
 	case c < 90 && nest: // loops
-		cnt := g.fresh("i")
+		cnt := g.fresh("it")
 		k := g.n(1, 6)
 		saveSw := g.inSwitch
 		g.inSwitch = 0
@@ -1144,7 +1156,7 @@ func (g *gen) stmt(level int, w *strings.Builder) {
 			fmt.Fprintf(w, "%svar %s: u32 = 0u;\n", in, cnt)
 			extra, _ := g.expr(scalar(kBool), d)
 			and, or := "&&", "||"
-			if g.av["dxil-bool-shortcircuit-in-loop"] {
+			if g.av["dxil-bool-shortcircuit"] {
 				and, or = "&", "|"
 			}
 			fmt.Fprintf(w, "%swhile ((%s < %du) %s (%s %s (%s < 1u))) {\n", in, cnt, k, and, extra, or, cnt)
